@@ -213,3 +213,388 @@ func c07Scenario(bt baseTrace, p int, deadline bool, other int) cwScenario {
 	return cwScenario{Mode: "e2e", Steps: steps, Cancel: p,
 		Tags: []string{"c07", "kind:" + bt.Kind, "trace:" + bt.Name, "how:" + how, fmt.Sprintf("other:%d", other), fmt.Sprintf("prefix:%d", p)}}
 }
+
+// ---------------------------------------------------------------- C11
+
+func bodyEnv(call int, b int64) *EnvSpec {
+	return &EnvSpec{Call: call, Hdr: "ok:0", Body: i64(b), Trl: "none"}
+}
+func trlEnv(call int, code int64) *EnvSpec {
+	return &EnvSpec{Call: call, Hdr: "ok:0", Status: &[2]int64{code, 7}, Trl: "ok:0"}
+}
+func replyEnv(call int, b int64) *EnvSpec {
+	return &EnvSpec{Call: call, Hdr: "ok:0", Body: i64(b), Trl: "ok:0"}
+}
+
+// others in flight: 1 = a gated unary call; 2 = that and an idle bidi stream with one exchange done
+func c11Others(o int) (pre, post []Step, next int) {
+	if o >= 1 {
+		pre = append(pre, Step{Op: "unary", B: 95, Gate: true}, Step{Op: "c2s"})
+		post = append(post, Step{Op: "hu", B: 95}, Step{Op: "drain"})
+		next = 1
+	}
+	if o >= 2 {
+		c := next
+		pre = append(pre, Step{Op: "open", Kind: "Bidi"}, Step{Op: "c2s"}, Step{Op: "send", C: c, B: 90}, Step{Op: "c2s"},
+			hop(c, HOp{Op: "recv"}), hop(c, HOp{Op: "send", B: 91}), Step{Op: "s2c"}, Step{Op: "recv", C: c})
+		post = append(post, Step{Op: "send", C: c, B: 92}, Step{Op: "c2s"}, hop(c, HOp{Op: "recv"}), hop(c, HOp{Op: "send", B: 93}),
+			Step{Op: "s2c"}, Step{Op: "recv", C: c}, Step{Op: "closesend", C: c}, Step{Op: "c2s"}, hop(c, HOp{Op: "recv"}),
+			hop(c, HOp{Op: "return"}), Step{Op: "s2c"}, Step{Op: "recv", C: c})
+		next++
+	}
+	return
+}
+
+func probeSteps(withDeadline bool) []Step {
+	p := Step{Op: "unary", B: 77}
+	s := []Step{}
+	if withDeadline {
+		p.D = 1000
+	}
+	s = append(s, p, Step{Op: "drain"})
+	if withDeadline {
+		// a probe that has not been answered by now gets DeadlineExceeded
+		s = append(s, Step{Op: "tick", D: 1000}, Step{Op: "drain"})
+	}
+	return s
+}
+
+// handler abandons: the client sends n messages, r of them reach the server before the handler, having read k
+// of them, returns (k <= r <= n); the rest arrives afterwards.
+func c11HandlerAbandons(kind string, n, k, r, others int, probeDl bool, retCode int) cwScenario {
+	pre, post, c := c11Others(others)
+	s := append([]Step{}, pre...)
+	s = append(s, Step{Op: "open", Kind: kind}, Step{Op: "c2s"})
+	for i := 0; i < n; i++ {
+		s = append(s, Step{Op: "send", C: c, B: int64(10 + i)})
+	}
+	for i := 0; i < r; i++ {
+		s = append(s, Step{Op: "c2s"})
+		if i < k {
+			s = append(s, hop(c, HOp{Op: "recv"}))
+		}
+	}
+	if kind != "CStream" {
+		s = append(s, hop(c, HOp{Op: "send", B: 20}))
+	}
+	s = append(s, hop(c, HOp{Op: "return", Code: retCode, Msg: 7}), Step{Op: "drain"},
+		Step{Op: "send", C: c, B: 50}, Step{Op: "closesend", C: c}, Step{Op: "drain"},
+		Step{Op: "recv", C: c}, Step{Op: "recv", C: c}, Step{Op: "recv", C: c})
+	s = append(s, probeSteps(probeDl)...)
+	s = append(s, post...)
+	return cwScenario{Mode: "e2e", Steps: s, Tags: []string{"c11", "abandon:handler", "kind:" + kind, fmt.Sprintf("n:%d", n), fmt.Sprintf("k:%d", k),
+		fmt.Sprintf("arrived:%d", r), fmt.Sprintf("others:%d", others), fmt.Sprintf("probe-deadline:%v", probeDl)}}
+}
+
+// caller abandons: the handler sends m+extra responses, all of them reach the client, none is read; the caller
+// cancels (or its deadline expires, or it simply never reads again and the handler finishes).
+func c11CallerAbandons(kind string, m, extra int, how string, others int, probeDl bool) cwScenario {
+	pre, post, c := c11Others(others)
+	s := append([]Step{}, pre...)
+	open := Step{Op: "open", Kind: kind}
+	if how == "deadline" {
+		open.D = 3000
+	}
+	s = append(s, open, Step{Op: "c2s"}, Step{Op: "send", C: c, B: 10}, Step{Op: "c2s"}, hop(c, HOp{Op: "recv"}))
+	for j := 0; j < m+extra; j++ {
+		s = append(s, hop(c, HOp{Op: "send", B: int64(20 + j)}))
+	}
+	for j := 0; j < extra; j++ {
+		s = append(s, Step{Op: "s2c"}, Step{Op: "recv", C: c})
+	}
+	s = append(s, Step{Op: "drain"})
+	switch how {
+	case "cancel":
+		s = append(s, Step{Op: "cancel", C: c})
+	case "deadline":
+		s = append(s, Step{Op: "tick", D: 3000})
+	case "stop-reading":
+		// the caller never reads again; the handler finishes
+	}
+	s = append(s, Step{Op: "drain"}, hop(c, HOp{Op: "send", B: 40}), hop(c, HOp{Op: "return"}), Step{Op: "drain"})
+	s = append(s, probeSteps(probeDl)...)
+	s = append(s, post...)
+	if how == "stop-reading" {
+		// back-pressure by a live caller is not abandonment: it reads at the end
+		for j := 0; j < m+2; j++ {
+			s = append(s, Step{Op: "recv", C: c}, Step{Op: "drain"})
+		}
+		s = append(s, Step{Op: "closesend", C: c}, Step{Op: "drain"}, Step{Op: "recv", C: c}, Step{Op: "recv", C: c})
+	}
+	return cwScenario{Mode: "e2e", Steps: s, Tags: []string{"c11", "abandon:caller", "kind:" + kind, fmt.Sprintf("unread:%d", m), "how:" + how,
+		fmt.Sprintf("others:%d", others), fmt.Sprintf("probe-deadline:%v", probeDl)}}
+}
+
+// a peer that sends more than expected (client against a scripted peer)
+func c11OverSending(shape string, d int, probeDl bool) cwScenario {
+	var s []Step
+	switch shape {
+	case "unary-gone":
+		// the caller of a unary call has gone (deadline); the peer answers d times
+		s = append(s, Step{Op: "unary", B: 60, D: 500}, Step{Op: "tick", D: 500})
+		for i := 0; i < d; i++ {
+			s = append(s, Step{Op: "peer", Env: replyEnv(0, 60)})
+		}
+	case "unary-dup":
+		// the peer answers a unary call d+1 times
+		s = append(s, Step{Op: "unary", B: 60})
+		for i := 0; i <= d; i++ {
+			s = append(s, Step{Op: "peer", Env: replyEnv(0, 60)})
+		}
+	case "stream-after-trailer":
+		s = append(s, Step{Op: "open", Kind: "Bidi"}, Step{Op: "peer", Env: bodyEnv(0, 20)}, Step{Op: "recv", C: 0},
+			Step{Op: "peer", Env: trlEnv(0, 0)})
+		for i := 0; i < d; i++ {
+			s = append(s, Step{Op: "peer", Env: bodyEnv(0, int64(30+i))})
+		}
+		s = append(s, Step{Op: "recv", C: 0})
+	case "stream-unread-cancel":
+		// d bodies nobody reads, then the caller cancels
+		s = append(s, Step{Op: "open", Kind: "Bidi"})
+		for i := 0; i < d; i++ {
+			s = append(s, Step{Op: "peer", Env: bodyEnv(0, int64(30+i))})
+		}
+		s = append(s, Step{Op: "cancel", C: 0})
+		for i := 0; i < 2; i++ {
+			s = append(s, Step{Op: "peer", Env: bodyEnv(0, int64(40+i))})
+		}
+	}
+	p := Step{Op: "unary", B: 77}
+	if probeDl {
+		p.D = 1000
+	}
+	s = append(s, p, Step{Op: "peer", Env: replyEnv(1, 77)})
+	if probeDl {
+		s = append(s, Step{Op: "tick", D: 1000})
+	}
+	return cwScenario{Mode: "client", Steps: s, Tags: []string{"c11", "abandon:peer-oversends", "shape:" + shape, fmt.Sprintf("extra:%d", d),
+		fmt.Sprintf("probe-deadline:%v", probeDl)}}
+}
+
+func c11Scenarios(full bool) []cwScenario {
+	var out []cwScenario
+	N := 4
+	if full {
+		N = 8
+	}
+	for ki, kind := range []string{"Bidi", "CStream", "SStream"} {
+		for n := 1; n <= N; n++ {
+			for k := 0; k < n; k++ {
+				for r := k; r <= n; r++ {
+					for others := 0; others <= 2; others++ {
+						for pd := 0; pd < 2; pd++ {
+							if !full && (n+k+r+others+pd+ki)%2 == 1 && n > 2 {
+								continue // quick: half of the larger configurations
+							}
+							if full && n > 4 && (r != k && r != n && r != k+2) {
+								continue
+							}
+							code := 0
+							if (n+k+r)%3 == 0 {
+								code = 5
+							}
+							out = append(out, c11HandlerAbandons(kind, n, k, r, others, pd == 1, code))
+						}
+					}
+				}
+			}
+		}
+	}
+	for _, kind := range []string{"Bidi", "SStream"} {
+		for m := 0; m <= N; m++ {
+			for _, how := range []string{"cancel", "deadline", "stop-reading"} {
+				for others := 0; others <= 2; others++ {
+					for pd := 0; pd < 2; pd++ {
+						out = append(out, c11CallerAbandons(kind, m, (m+others)%2, how, others, pd == 1))
+					}
+				}
+			}
+		}
+	}
+	for _, shape := range []string{"unary-gone", "unary-dup", "stream-after-trailer", "stream-unread-cancel"} {
+		for d := 1; d <= N; d++ {
+			for pd := 0; pd < 2; pd++ {
+				out = append(out, c11OverSending(shape, d, pd == 1))
+			}
+		}
+	}
+	return out
+}
+
+// ---------------------------------------------------------------- C06: scripted-peer families
+
+// client words: the real client against a scripted peer; one stream (call 0) is opened, then every word over
+// the alphabet below, API-conformant (no Send after CloseSend, one CloseSend), cancel at every position
+var clientLetters = []string{"send", "closesend", "recv", "cancel", "expire", "pbody", "ptrailer", "unary", "wfail"}
+
+func clientWord(w []int) (cwScenario, bool) {
+	s := []Step{{Op: "open", Kind: "Bidi", D: 4000}}
+	closed := false
+	nUnary := 0
+	name := ""
+	for i, x := range w {
+		l := clientLetters[x]
+		name += l[:2]
+		switch l {
+		case "send":
+			if closed {
+				return cwScenario{}, false
+			}
+			s = append(s, Step{Op: "send", C: 0, B: int64(10 + i)})
+		case "closesend":
+			if closed {
+				return cwScenario{}, false
+			}
+			closed = true
+			s = append(s, Step{Op: "closesend", C: 0})
+		case "recv":
+			s = append(s, Step{Op: "recv", C: 0})
+		case "cancel":
+			s = append(s, Step{Op: "cancel", C: 0})
+		case "expire":
+			s = append(s, Step{Op: "tick", D: 4000})
+		case "pbody":
+			s = append(s, Step{Op: "peer", Env: bodyEnv(0, int64(20+i))})
+		case "ptrailer":
+			s = append(s, Step{Op: "peer", Env: trlEnv(0, int64(5*(i%2)))})
+		case "unary":
+			nUnary++
+			s = append(s, Step{Op: "unary", B: int64(60 + i)}, Step{Op: "peer", Env: replyEnv(nUnary, int64(60+i))})
+		case "wfail":
+			s = append(s, Step{Op: "wfail", B: 1})
+		}
+	}
+	return cwScenario{Mode: "client", Steps: s, Tags: []string{"c06", "family:client-words", fmt.Sprintf("len:%d", len(w)+1)}}, true
+}
+
+// server words: the real server against a scripted, protocol-conformant client; one stream (scripted call 0)
+// is opened, then every word over client envelopes {body, close, reset} and handler operations
+var serverLetters = []string{"cb", "cc", "cr", "hr", "hs", "hh", "h0", "he"}
+
+func serverWord(w []int, kind string) (cwScenario, bool) {
+	m := "/verif.Echo/" + kind
+	s := []Step{{Op: "cli", M: m, Env: &EnvSpec{Call: 0, Hdr: "ok:0", Trl: "none"}}}
+	closed, reset, returned := false, false, false
+	for i, x := range w {
+		switch serverLetters[x] {
+		case "cb":
+			if closed || reset {
+				return cwScenario{}, false
+			}
+			s = append(s, Step{Op: "cli", M: m, Env: bodyEnv(0, int64(10+i))})
+		case "cc":
+			if closed || reset {
+				return cwScenario{}, false
+			}
+			closed = true
+			s = append(s, Step{Op: "cli", M: m, Env: trlEnv(0, 0)})
+		case "cr":
+			if reset {
+				return cwScenario{}, false
+			}
+			reset = true
+			s = append(s, Step{Op: "cli", M: m, Env: &EnvSpec{Call: 0, Hdr: "ok:0", Trl: "none", Rst: true}})
+		case "hr":
+			if returned {
+				return cwScenario{}, false
+			}
+			s = append(s, hop(0, HOp{Op: "recv"}))
+		case "hs":
+			if returned {
+				return cwScenario{}, false
+			}
+			s = append(s, hop(0, HOp{Op: "send", B: int64(20 + i)}))
+		case "hh":
+			if returned {
+				return cwScenario{}, false
+			}
+			s = append(s, hop(0, HOp{Op: "setheader", B: 3}), hop(0, HOp{Op: "sendheader", B: 4}))
+		case "h0":
+			if returned {
+				return cwScenario{}, false
+			}
+			returned = true
+			s = append(s, hop(0, HOp{Op: "settrailer", B: 5}), hop(0, HOp{Op: "return"}))
+		case "he":
+			if returned {
+				return cwScenario{}, false
+			}
+			returned = true
+			s = append(s, hop(0, HOp{Op: "return", Code: 9, Msg: 7}))
+		}
+	}
+	// whatever state the word leaves: a probe unary call is still answered, then the handler (if any) finishes
+	s = append(s, Step{Op: "cli", M: "/verif.Echo/Unary", Env: &EnvSpec{Call: 1, Hdr: "ok:0", Body: i64(77), Trl: "none"}})
+	if !returned {
+		s = append(s, hop(0, HOp{Op: "return"}))
+	}
+	return cwScenario{Mode: "server", Steps: s, Tags: []string{"c06", "family:server-words", "kind:" + kind, fmt.Sprintf("len:%d", len(w)+1)}}, true
+}
+
+func words(alpha, maxLen int, f func(w []int)) {
+	var rec func(w []int)
+	rec = func(w []int) {
+		if len(w) > 0 {
+			f(w)
+		}
+		if len(w) == maxLen {
+			return
+		}
+		for x := 0; x < alpha; x++ {
+			rec(append(append([]int{}, w...), x))
+		}
+	}
+	rec(nil)
+}
+
+// further server-side conversations: unary exchanges, undecodable metadata, unknown ids, the handler's own deadline
+func serverSpecials() []cwScenario {
+	var out []cwScenario
+	u := func(call int, b int64) Step {
+		return Step{Op: "cli", M: "/verif.Echo/Unary", Env: &EnvSpec{Call: call, Hdr: "ok:0", Body: i64(b), Trl: "none"}}
+	}
+	out = append(out, cwScenario{Mode: "server", Steps: []Step{u(0, 61), u(1, 62), u(2, 0)}, Tags: []string{"c06", "family:server-special", "what:unary"}})
+	out = append(out, cwScenario{Mode: "server", Steps: []Step{
+		{Op: "cli", M: "/verif.Echo/Unary", Env: &EnvSpec{Call: 0, Hdr: "bad", Body: i64(61), Trl: "none"}}, u(1, 62)},
+		Tags: []string{"c06", "family:server-special", "what:unary-bad-metadata"}})
+	out = append(out, cwScenario{Mode: "server", Steps: []Step{
+		{Op: "cli", M: "/verif.Echo/Bidi", Env: &EnvSpec{Call: 0, Hdr: "bad", Trl: "none"}}, u(1, 62)},
+		Tags: []string{"c06", "family:server-special", "what:open-bad-metadata"}})
+	for d := 1; d <= 3; d++ {
+		for v := 0; v < 2; v++ {
+			// bodies for a stream the server does not know: its open was refused (undecodable metadata) / its handler has returned
+			var s []Step
+			what := "bodies-for-refused-open"
+			if v == 0 {
+				s = append(s, Step{Op: "cli", M: "/verif.Echo/Bidi", Env: &EnvSpec{Call: 0, Hdr: "bad", Trl: "none"}})
+			} else {
+				what = "bodies-after-handler-return"
+				s = append(s, Step{Op: "cli", M: "/verif.Echo/Bidi", Env: &EnvSpec{Call: 0, Hdr: "ok:0", Trl: "none"}}, hop(0, HOp{Op: "return"}))
+			}
+			for i := 0; i < d; i++ {
+				s = append(s, Step{Op: "cli", M: "/verif.Echo/Bidi", Env: bodyEnv(0, int64(10+i))})
+			}
+			s = append(s, Step{Op: "cli", M: "/verif.Echo/Bidi", Env: trlEnv(0, 0)},
+				Step{Op: "cli", M: "/verif.Echo/Bidi", Env: &EnvSpec{Call: 0, Hdr: "ok:0", Trl: "none", Rst: true}}, u(1, 62))
+			out = append(out, cwScenario{Mode: "server", Steps: s, Tags: []string{"c06", "family:server-special", "what:" + what}})
+		}
+	}
+	// the handler's own deadline (GRPC-Timeout from a caller that never resets): D-06b
+	for v := 0; v < 12; v++ {
+		kind := []string{"Bidi", "SStream", "CStream"}[v%3]
+		m := "/verif.Echo/" + kind
+		s := []Step{{Op: "cli", M: m, D: 1000, Env: &EnvSpec{Call: 0, Hdr: "ok:0", Trl: "none"}}}
+		if v%2 == 0 {
+			s = append(s, Step{Op: "cli", M: m, Env: bodyEnv(0, 10)}, hop(0, HOp{Op: "recv"}), hop(0, HOp{Op: "send", B: 20}))
+		}
+		s = append(s, Step{Op: "tick", D: 1000}, hop(0, HOp{Op: "await"}))
+		if v%4 < 2 {
+			s = append(s, hop(0, HOp{Op: "return", Ctx: true}))
+		} else {
+			s = append(s, hop(0, HOp{Op: "return"}))
+		}
+		s = append(s, u(1, 62))
+		out = append(out, cwScenario{Mode: "server", Steps: s, Tags: []string{"c06", "family:server-special", "what:handler-deadline"}})
+	}
+	return out
+}
